@@ -49,6 +49,8 @@ ASSUMPTIONS = [
     "Looking through a private helper by inlining it preserves the facts the rules use (which value reaches which call / store); helpers "
     "with *args/**kwargs, generators, nested functions or a return inside a loop are not inlined - the anchor they hide is then "
     "reported as an analysis error.",
+    "The rules describe the functions as they run with today's defaults: an early `return`/`raise` guarded by a never re-bound "
+    "parameter whose constant boolean default does not take it (an optional other mode such as `dry_run=False`) is not followed.",
 ]
 
 
@@ -71,6 +73,10 @@ COMPS = (ast.ListComp, ast.SetComp, ast.DictComp, ast.GeneratorExp)
 # functions the rules anchor on: never inlined
 ANCHORS = frozenset({"grid_search", "adapt_circuit", "linearize_grid", "update_var", "update_template", "get_edge", "run", "from_yaml",
                      "get_nodes", "get_node_template", "add_node_template", "apply"})
+
+
+# the sweep itself: an optional mode that leaves it early (before anything is simulated) is outside the property
+FOLD_OPTIONAL_EXITS = frozenset({"grid_search"})
 
 
 class SynFunc(FunctionInfo):
@@ -242,6 +248,8 @@ class _Normaliser:
     def build(self) -> SynFunc:
         node = _cp(self.f.node)
         node.body = self._block(node.body, (self.f,))
+        if self.f.name in FOLD_OPTIONAL_EXITS:
+            _fold_optional_exits(node)
         _split_parallel(node)
         ast.fix_missing_locations(node)
         set_parents(node)
@@ -437,6 +445,54 @@ class _Normaliser:
             new_st = st
         self.inlined.append(g.qualname)
         return self._block(pre + body2, stack + (g,)), new_st
+
+
+def _fold_optional_exits(node):
+    """An `if <flag>: ... return / raise` whose flag is a never re-bound parameter with a constant boolean default and whose
+    exit is taken only for the NON-default value (`dry_run: bool = False` -> `if dry_run: return circuit, table`) is an optional
+    other mode of the function, not the behaviour the property speaks about: the rules look at the function as it runs with
+    today's defaults, so the branch is dropped."""
+    a = node.args
+    pos = a.posonlyargs + a.args
+    defaults: Dict[str, bool] = {}
+    for arg, d in zip(pos[len(pos) - len(a.defaults):], a.defaults):
+        if isinstance(d, ast.Constant) and isinstance(d.value, bool):
+            defaults[arg.arg] = d.value
+    for arg, d in zip(a.kwonlyargs, a.kw_defaults):
+        if isinstance(d, ast.Constant) and isinstance(d.value, bool):
+            defaults[arg.arg] = d.value
+    stored = {n.id for n in ast.walk(node) if isinstance(n, ast.Name) and isinstance(n.ctx, (ast.Store, ast.Del))}
+    flags = {k: v for k, v in defaults.items() if k not in stored}
+    if not flags:
+        return
+
+    def truth(t):
+        if isinstance(t, ast.Name) and t.id in flags:
+            return flags[t.id]
+        if isinstance(t, ast.UnaryOp) and isinstance(t.op, ast.Not):
+            v = truth(t.operand)
+            return None if v is None else not v
+        if isinstance(t, ast.Compare) and len(t.ops) == 1 and isinstance(t.ops[0], (ast.Is, ast.Eq, ast.IsNot, ast.NotEq)) \
+                and isinstance(t.left, ast.Name) and t.left.id in flags and isinstance(t.comparators[0], ast.Constant) \
+                and isinstance(t.comparators[0].value, bool):
+            same = flags[t.left.id] == t.comparators[0].value
+            return same if isinstance(t.ops[0], (ast.Is, ast.Eq)) else not same
+        return None
+
+    def block(stmts):
+        out = []
+        for st in stmts:
+            for fld in ("body", "orelse", "finalbody"):
+                b = getattr(st, fld, None)
+                if isinstance(b, list) and b and isinstance(b[0], ast.stmt) and not isinstance(st, _FUNCS + (ast.ClassDef,)):
+                    setattr(st, fld, block(b) or [_at(ast.Pass(), st)])
+            if isinstance(st, ast.If):
+                v = truth(st.test)
+                if v is False and not st.orelse and _terminates(st.body) and isinstance(st.body[-1], ast.Return):
+                    continue
+            out.append(st)
+        return out
+    node.body = block(node.body) or [_at(ast.Pass(), node)]
 
 
 def _split_parallel(node):
@@ -759,7 +815,92 @@ def expand(ctx, F, node: ast.AST, depth: int = 8) -> ast.AST:
             elif isinstance(val, ast.AST):
                 setattr(new, field, T(val, d))
         return new
-    return fold_tuples(T(node, depth))
+    return fold_tuples(_splice_expr_helpers(ctx, F, T(node, depth)))
+
+
+def _bind_helper_args(g: FunctionInfo, call: ast.Call) -> Optional[Dict[str, ast.AST]]:
+    a = g.node.args
+    if a.vararg or a.kwarg or any(isinstance(x, ast.Starred) for x in call.args) or any(k.arg is None for k in call.keywords):
+        return None
+    pos = [x.arg for x in a.posonlyargs + a.args]
+    kwonly = [x.arg for x in a.kwonlyargs]
+    binding: Dict[str, ast.AST] = {}
+    free = list(pos)
+    if g.cls is not None and not g.is_static:
+        if g.is_classmethod or g.is_property or not isinstance(call.func, ast.Attribute) or not pos:
+            return None
+        binding[pos[0]] = call.func.value
+        free = pos[1:]
+    if len(call.args) > len(free):
+        return None
+    for p, v in zip(free, call.args):
+        binding[p] = v
+    for k in call.keywords:
+        if k.arg in binding or k.arg not in pos + kwonly:
+            return None
+        binding[k.arg] = k.value
+    for i, d in enumerate(a.defaults):
+        binding.setdefault(pos[len(pos) - len(a.defaults) + i], d)
+    for nm, d in zip(kwonly, a.kw_defaults):
+        if d is not None:
+            binding.setdefault(nm, d)
+    return binding if all(p in binding for p in pos + kwonly) else None
+
+
+def _splice_expr_helpers(ctx, F, e, depth: int = 3):
+    """Copy of an (expanded) expression in which calls of private one-expression helpers (`def _h(x): return <expr>`) are replaced by
+    that expression with the arguments substituted - also in positions the statement-level inliner does not reach (comprehension
+    elements, subscript targets, branches of conditional expressions) - and module-level string constants (`ALL = "all"`) by their
+    value."""
+    orig = getattr(F, "orig", F)
+    nz = F.__dict__.get("_expr_normaliser")
+    if nz is None:
+        nz = F.__dict__["_expr_normaliser"] = _Normaliser(ctx, orig)
+        F.__dict__["_local_ids"] = {n.id for n in ast.walk(F.node) if isinstance(n, ast.Name) and isinstance(n.ctx, (ast.Store, ast.Del))} | set(F.params)
+    local_ids = F.__dict__["_local_ids"]
+    m = orig.module
+
+    def subst(n, binding):
+        if isinstance(n, ast.Name) and isinstance(n.ctx, ast.Load) and n.id in binding:
+            return binding[n.id]
+        if not isinstance(n, ast.AST):
+            return n
+        new = _copy.copy(n)
+        new.__dict__.pop("_parent", None)             # a node of the helper: not a position in F
+        for field, val in ast.iter_fields(n):
+            if isinstance(val, list):
+                setattr(new, field, [subst(x, binding) if isinstance(x, ast.AST) else x for x in val])
+            elif isinstance(val, ast.AST):
+                setattr(new, field, subst(val, binding))
+        return new
+
+    def H(n, d):
+        if isinstance(n, ast.Call) and d > 0:
+            g = nz._target(n)
+            if g is not None and _inlinable_body(g):
+                body = [x for x in g.node.body if not (isinstance(x, ast.Expr) and isinstance(x.value, ast.Constant))]
+                binding = _bind_helper_args(g, n) if len(body) == 1 and isinstance(body[0], ast.Return) and body[0].value is not None else None
+                stored = {x.id for x in ast.walk(g.node) if isinstance(x, ast.Name) and isinstance(x.ctx, (ast.Store, ast.Del))}
+                if binding is not None and not stored:
+                    return H(subst(body[0].value, binding), d - 1)
+        if isinstance(n, ast.Name) and isinstance(n.ctx, ast.Load) and n.id not in local_ids and comp_generator_of_safe(n) is None:
+            ds = m.assigns.get(n.id, [])
+            if len(ds) == 1 and isinstance(ds[0], ast.Assign) and isinstance(ds[0].value, ast.Constant) and isinstance(ds[0].value.value, str):
+                return ast.copy_location(ast.Constant(value=ds[0].value.value), n)
+        if not isinstance(n, ast.AST):
+            return n
+        new = _copy.copy(n)
+        for field, val in ast.iter_fields(n):
+            if isinstance(val, list):
+                setattr(new, field, [H(x, d) if isinstance(x, ast.AST) else x for x in val])
+            elif isinstance(val, ast.AST):
+                setattr(new, field, H(val, d))
+        return new
+    return H(e, depth)
+
+
+def comp_generator_of_safe(n):
+    return comp_generator_of(n) if hasattr(n, "_parent") else None
 
 
 def fold_tuples(e):
@@ -1302,7 +1443,7 @@ def _path_parts(e):
             if isinstance(v, ast.Constant) and isinstance(v.value, str):
                 out.append(v.value)
             elif isinstance(v, ast.FormattedValue) and v.format_spec is None and v.conversion in (-1, 115):
-                out.append(v.value)
+                out.append(v.value.value if isinstance(v.value, ast.Constant) and isinstance(v.value.value, str) else v.value)
             else:
                 return None
         return _merge_text(out)
